@@ -119,7 +119,7 @@ var unmarshalCorpus = []string{
 	"0", "-0", "1", "1.5", "1e5", "1E5", "1e1000", "1e1001", "1E-1000", "1e-1001", "0.1e-1000", "1e300000000", "1E-300000000", "1e2147483648",
 	"0." + strings.Repeat("0", 1000) + "1", "0." + strings.Repeat("0", 999) + "1", "1" + strings.Repeat("0", 1200), "1" + strings.Repeat("0", 1200) + "e1100",
 	"1" + strings.Repeat("0", 1200) + "e1300", strings.Repeat("9", 1005) + "e-1005", strings.Repeat("9", 1005) + "e-1010", "0." + strings.Repeat("0", 1200) + "1e-5",
-	"0." + strings.Repeat("0", 1200) + "1e150", }
+	"0." + strings.Repeat("0", 1200) + "1e150"}
 
 func runStored(o *hx.Opts, res *hx.Result, r *hx.Rand) {
 	w := newShardWriter(o, res, "stored",
